@@ -358,13 +358,21 @@ func VfC10_Inline() {
 	enc.Encode(newArray(arr...))
 	enc.Flush()
 	nd.PanicLabel("inline")
-	d1 := newDecoder(&vfChunkReader{data: line, sym: 1}, 32)
+	// a second, different inline command is pipelined behind the first: the first request is still
+	// held (queued for a backend, possibly re-sent after a redirection) while the reader goes on
+	next := []byte("QQQQQQQQ\r\n")
+	stream := append(append([]byte{}, line...), next...)
+	d1 := newDecoder(&vfChunkReader{data: stream, sym: 1}, 32)
 	d2 := newDecoder(&vfChunkReader{data: sink.b}, 32)
 	v1, err1 := d1.Decode()
 	v2, err2 := d2.Decode()
 	nd.Assert(err1 == nil && err2 == nil, "both forms decode")
 	if err1 == nil && err2 == nil {
 		nd.Assert(vfSame(v1, v2), "inline form decodes to the same request as the array form")
+		n1, errn := d1.Decode()
+		nd.Assert(errn == nil && n1 != nil && len(n1.Array) == 1, "the pipelined inline command decodes next")
+		nd.Assert(vfSame(v1, v2), "an inline request keeps its bytes while the following bytes are read")
+		nd.Cover("held-across-next-read")
 	}
 }
 
